@@ -228,6 +228,7 @@ type c15Ref struct {
 	evs   []c15Ev
 	isErr bool
 	val   int64
+	feats map[string]bool // dynamic features of the reference execution (attribution to listed defects)
 }
 
 func (s *c15Subject) refProg(args []int64) *gProg {
@@ -244,7 +245,7 @@ func (s *c15Subject) refProg(args []int64) *gProg {
 
 // reference runs the reference interpreter; ok=false when the subject is unsuitable.
 func (s *c15Subject) reference(args []int64) (*c15Ref, bool) {
-	out, ok := s.refProg(args).run()
+	out, ok, feats := s.refProg(args).runFeatures()
 	if !ok {
 		return nil, false
 	}
@@ -252,7 +253,7 @@ func (s *c15Subject) reference(args []int64) (*c15Ref, bool) {
 	if len(lines) == 0 {
 		return nil, false
 	}
-	ref := &c15Ref{}
+	ref := &c15Ref{feats: feats}
 	last := lines[len(lines)-1]
 	var v int64
 	switch {
@@ -1170,6 +1171,13 @@ func c15Case(c *Ctx, caseIdx int, r *rand.Rand) {
 // must be in the subject AND the divergence must be the listed symptom).
 func c15KnownPattern(s *c15Subject, sec *c15Section, d *c15Diff) string {
 	sh := shapeOf(s.target.body)
+	// an error or jump that leaves a catch body whose do-expression has a finally skips that finally: a listed defect
+	// of plain control flow (C14 K50, same witness); every rendering of such a body diverges from the reference
+	for _, r := range s.ref {
+		if r != nil && r.feats["abrupt-exit-from-catch-body-with-finally"] && !strings.HasPrefix(d.what, "deadlock") && !strings.HasPrefix(d.what, "vm-panic") {
+			return "feature:abrupt-exit-from-catch-body-with-finally"
+		}
+	}
 	if strings.HasPrefix(sec.kind, "generator:") && strings.Contains(sh, "defer;") && strings.Contains(sh, "return;") && strings.HasPrefix(d.what, "want-deferred:") {
 		return "generator:return-skips-deferred-code"
 	}
